@@ -67,6 +67,7 @@ def run_schedule(sched, seed=0):
                 await r2.connect()
             random.random = drawn
             tasks = []
+            by_id = {}
 
             async def others():
                 c2 = CEMIFrame(code=CEMIMessageCode.L_DATA_REQ, data=CEMILData.init_from_telegram(
@@ -88,6 +89,9 @@ def run_schedule(sched, seed=0):
                 try:
                     await r.send_cemi(cemi)
                     ev.append({"ev": "ret", "id": i})
+                except asyncio.CancelledError:
+                    ev.append({"ev": "cancelled", "id": i})
+                    raise
                 except Exception as ex:  # noqa: BLE001 - recorded, the spec has no such event
                     ev.append({"ev": "raised:" + type(ex).__name__, "id": i})
 
@@ -100,8 +104,14 @@ def run_schedule(sched, seed=0):
             for t, kind, arg in sorted(sched, key=lambda x: x[0]):
                 if kind == "busy":
                     loop.call_at(base + t / 1e6, loop.inject, busy, arg)
+                elif kind == "cancel":        # the caller of send_cemi(frame arg) gives up, if it is still inside
+                    loop.call_at(base + t / 1e6, lambda a=arg: by_id[a].cancel() if a in by_id and not by_id[a].done() else None)
                 else:
-                    loop.call_at(base + t / 1e6, lambda a=arg: tasks.append(loop.create_task(sender(a))))
+                    def start(a=arg):
+                        by_id[a] = loop.create_task(sender(a))
+                        tasks.append(by_id[a])
+
+                    loop.call_at(base + t / 1e6, start)
             last = max([t for t, _, _ in sched] + [0]) / 1e6
             await asyncio.sleep(last + 12.0)
             ev.append({"ev": "end", "t": us(loop.time())})
@@ -129,6 +139,10 @@ def grid_schedules(tier):
         for offs in itertools.product((0, 1, 2), repeat=k - 1):
             s = [(1000, "send", 1)] + [(1000 + gap * G + o * 1000, "send", 2 + j) for j, o in enumerate(offs)]
             out.append(s)
+    # (1b) three or four callers queue up behind a transmission; one of those waiting gives up before its turn
+    for k, c, at in itertools.product((3, 4), (2, 3, 4), (1, 7, 19, 21, 39)):
+        if c <= k:
+            out.append([(1000, "send", 1)] + [(2000 + j * 100, "send", 2 + j) for j in range(k - 1)] + [(2000 + at * 1000, "cancel", c)])
     # (2) one or two busy frames with one or two senders at every grid offset
     waits = (0, 20, 100)
     offs = range(0, 9) if tier == "quick" else range(0, 13)
@@ -155,6 +169,8 @@ def random_schedule(rnd):
         else:
             for _ in range(rnd.choice([1, 1, 2, 3])):
                 s.append((t + rnd.choice([0, 0, 1, 50, 999]), "send", nid))
+                if rnd.random() < 0.15:
+                    s.append((t + rnd.choice([1, 5000, 15000, 25000, 45000]), "cancel", nid))
                 nid += 1
     return s
 
